@@ -3,7 +3,16 @@
 properties.jsonl (everything not claimed goes to not_applicable with its reason)."""
 import json, os
 V = os.path.dirname(os.path.dirname(os.path.abspath(__file__)))
-ob = json.load(open(os.path.join(V, "obligations.json")))
+import glob
+ob = {}
+for f in sorted(glob.glob(os.path.join(V, "obligations.d", "*.json"))):
+    for k, v in json.load(open(f)).items():
+        d = ob.setdefault(k, {})
+        for kk, vv in v.items():
+            if isinstance(vv, list):
+                d[kk] = d.get(kk, []) + [x for x in vv if x not in d.get(kk, [])]
+            else:
+                d[kk] = vv
 props = [json.loads(l) for l in open(os.path.join(V, "properties.jsonl"))]
 na_reasons = json.load(open(os.path.join(V, "tools", "not_applicable.json"))) if os.path.exists(os.path.join(V, "tools", "not_applicable.json")) else {}
 checks, na = [], []
